@@ -13,10 +13,11 @@ S=$(mktemp -d /tmp/kcdet.XXXXXX)
 trap 'rm -rf "$S"' EXIT
 "$V/build_sim.sh" "$S/b" >/dev/null 2>&1 || { echo "determinism: INFRA build failed"; exit 2; }
 VERIF_YIELD=kcache/cache.go "$V/build_sim.sh" "$S/by" >/dev/null 2>&1 || { echo "determinism: INFRA build failed"; exit 2; }
+VERIF_YIELD=kcache/publisher.go "$V/build_sim.sh" "$S/bp" >/dev/null 2>&1 || { echo "determinism: INFRA build failed"; exit 2; }
 W="$S/b/worker"
 bad=0
 for p in $PROPS; do
-  w="$W"; [ "$p" = C15 ] && w="$S/by/worker"
+  w="$W"; [ "$p" = C15 ] && w="$S/by/worker"; [ "$p" = C05 ] && w="$S/bp/worker"
   "$w" -prop $p -seed 7 -from 0 -to $N -maxfail 100000 -hashes "$S/$p.a" -gomaxprocs 1 >/dev/null 2>&1
   "$w" -prop $p -seed 7 -from 0 -to $N -maxfail 100000 -hashes "$S/$p.b" -gomaxprocs 4 >/dev/null 2>&1
   # under load: 16 processes at once, each GOMAXPROCS 16, disjoint slices; then merged
